@@ -59,6 +59,8 @@ def cells(tier):
                         'n': 1})
     out.append({'kind': 'relay_stall', 'lmtp': 0, 'pipe': 1, 'n': 2,
                 'reuse': 1})
+    out.append({'kind': 'relay_idle_fragment', 'lmtp': 0, 'pipe': 0})
+    out.append({'kind': 'relay_idle_fragment', 'lmtp': 1, 'pipe': 1})
     out.append({'kind': 'relay_trickle', 'k': 4})
     out.append({'kind': 'pipe'})
     out.append({'kind': 'http'})
@@ -79,10 +81,12 @@ def run(cell):
     return globals()['run_' + cell['kind']](cell)
 
 
-UNITS = [b'EHLO c\r\n', b'NOOP\r\n', b'MAIL FROM:<a@b>\r\n',
-         b'RCPT TO:<c@d>\r\n', b'RS', b'ET\r\nMAIL FROM:<a@b>\r\n',
-         b'RCPT TO:<c@d>\r\n', b'DATA\r\n', b'Subject: x\r\n\r\npart one\r\n',
-         b'part two\r\n', b'.\r\n', b'QUIT\r\n']
+UNITS = [b'EHLO c\r\n', b'NOOP\r\nRS', b'ET\r\nMAIL FROM:<a@b>\r\n',
+         b'RCPT TO:<c@d>\r\n', b'DATA\r\n',
+         b'Subject: x\r\n\r\npart one\r\n', b'part two\r\n', b'.\r\nQU',
+         b'IT\r\n']
+# (index of the unit after which the peer falls silent) -> what must happen
+PARTIAL_AFTER = {2: 1, 8: 7}     # unit k-1 ended with a partial command line
 
 
 def serve(sock, auth=False):
@@ -125,9 +129,9 @@ def run_server_stall(cell):
     server, handlers, state, session = serve(srv_sock)
     k = api.choice('stall_after', len(UNITS) + 1)   # units sent before
     gaps = [api.real('gap%d' % i, 0, CMD_T - 1) for i in range(k)]
-    if k > 5:
+    if k > 2:
         # the line cut in two ("RS" + "ET") still arrives within the timeout
-        api.assume(gaps[4] + gaps[5] < CMD_T)
+        api.assume(gaps[2] < CMD_T - 1)
     sent_at = []
 
     def peer():
@@ -145,7 +149,7 @@ def run_server_stall(cell):
         return
     reps = replies_of(srv_sock)
     api.observe('ended', state['ended'])
-    in_data = 8 <= k <= 10
+    in_data = 5 <= k <= 7
     if k == len(UNITS):
         api.prove(state['ended'] == 'returned', 'session-did-not-quit', **info)
         return
@@ -157,15 +161,10 @@ def run_server_stall(cell):
         if api.prove(len(t354) == 1, 'no-354', **info):
             api.prove(state['at'] == t354[0] + DATA_T,
                       'data-timeout-not-cumulative', **info)
-    elif k in (5,):
-        # silent in the middle of a line: the timer started when the server
-        # began to wait for this command
-        prev = sent_at[3] if len(sent_at) > 3 else 0
-        api.prove(state['at'] <= prev + CMD_T + CMD_T,
-                  'command-timeout-exceeded', **info)
-        api.prove(state['at'] == prev + CMD_T,
-                  'partial-line-restarted-the-command-timer', **info)
     else:
+        # the command timer starts when the server begins to wait for the
+        # next command, i.e. when the last complete command was processed -
+        # also when part of the next line arrived in the same segment
         api.prove(state['at'] == last_complete + CMD_T,
                   'command-timeout-not-exact', **info)
 
@@ -335,6 +334,59 @@ def run_relay_stall(cell):
     # budget: every step performed before the stalled one completes at once
     # in virtual time, so the attempt must end exactly `limit` after start
     api.prove(done_at[i] == start + limit, 'attempt-outlived-its-timeout',
+              **info)
+
+
+def run_relay_idle_fragment(cell):
+    """connection reuse: while the connection is idle the server sends part
+    of a reply line (no CRLF) and goes silent; the next attempt must still
+    end within the command timeout"""
+    import gevent
+    from .c11 import make_relay, attempt, RC
+    from slimta.relay import RelayError
+    qc.fresh_hub()
+    qc.patch_env()
+    nc.reset()
+    lmtp, pipe = cell['lmtp'], cell['pipe']
+    ext = ('PIPELINING', '8BITMIME') if pipe else ('8BITMIME',)
+    peers = []
+
+    def creator(address):
+        p = nc.ScriptedPeer(nc.ok_script(ext), lmtp=bool(lmtp))
+        p.client.use_fd = True
+        peers.append(p)
+        return p.start()
+    relay = make_relay(lmtp, creator, idle_timeout=50)
+    outs = [[], []]
+    done = {}
+    frag = [b'421 4.4.2 Connection timed', b'4', b'421-bye\r\n421 '][
+        api.choice('fragment', 3)]
+    t2 = api.real('t_second', 2, 40)
+
+    def first():
+        attempt(relay, qc.make_envelope('m0', 's@z', RC[:1]), outs[0])
+        gevent.sleep(1)
+        peers[0].client._feed(frag)
+        peers[0].stalled = True
+
+    def second():
+        gevent.sleep(t2)
+        attempt(relay, qc.make_envelope('m1', 's@z', RC[:1]), outs[1])
+        done['at'] = qc.now()
+    gevent.spawn(first)
+    gevent.spawn(second)
+    qc.run_until_quiescent()
+    info = dict(lmtp=lmtp, pipe=pipe, frag=frag.decode())
+    api.prove(len(outs[0]) == 1 and outs[0][0][0] == 'value',
+              'first-message-failed', **info)
+    if not api.prove(len(outs[1]) == 1, 'attempt-never-finished', **info):
+        return
+    kind, val = outs[1][0]
+    api.prove(kind in ('value', 'relay-error'), 'non-relay-exception',
+              **info)
+    # the stale connection costs at most one command timeout; the request is
+    # then served on a fresh connection or fails transiently
+    api.prove(done['at'] <= t2 + 10 + 10, 'attempt-outlived-its-timeout',
               **info)
 
 
